@@ -484,10 +484,12 @@ func Generate(seed uint64, opt GenOptions) *Scenario {
 				op.Path2 = g.r.IntN(len(sc.Paths))
 			case n < 98:
 				op.Kind = "rekeyquery"
+			case n < 99 && g.chance(0.3):
+				op.Kind = "churn"
 			default:
 				op.Kind = "parsequery"
 			}
-			if opt.Property == "C20" && !op.IsExec() {
+			if opt.Property == "C20" && (!op.IsExec() || op.Kind == "rekeyquery") {
 				op.Kind = "query"
 				op.Path, op.Path2 = op.Path%nValid, 0
 			}
@@ -592,7 +594,7 @@ func Generate(seed uint64, opt GenOptions) *Scenario {
 			clock = g.jumpTarget(clock)
 			win.JumpTo = clock.Format(time.RFC3339)
 		}
-		if fGC && g.chance(0.04) {
+		if fGC && g.chance(0.015) {
 			win.GC = true
 			if g.chance(0.5) {
 				win.Ballast = 1 + g.r.IntN(2000)
@@ -667,6 +669,13 @@ func TwinScenario(idx int, mode string) *Scenario {
 		switch kind {
 		case "scan", "unmarshal":
 			o.Path2 = 1
+		case "churnI":
+			// the parse-use-drop loop, in interleave mode only (it is
+			// sequential by nature and slow under the race detector)
+			o.Kind = "churn"
+			if mode != "interleave" {
+				o.Kind = "ispredicate"
+			}
 		case "parsebad":
 			o.Kind, o.Path = "parse", 2
 		case "scanbad":
@@ -690,7 +699,7 @@ func TwinScenario(idx int, mode string) *Scenario {
 		}
 	default:
 		lists = [][]string{
-			{"parse", "scan", "query", "string", "unmarshal", "first"},
+			{"parse", "scan", "query", "string", "unmarshal", "first", "churnI"},
 			{"query", "string", "unmarshal", "parsebad", "exists", "scanbad"},
 			{"string", "exists", "parse", "scan", "query", "marshal"},
 		}
